@@ -297,17 +297,26 @@ func VerifHarness_C35_shallowupd() {
 //	focus 1: <= CAPS capabilities in any order (incl. symbolic value bytes)
 //	focus 2: depth none / deepen n (symbolic 1..120) / deepen-since t (symbolic) /
 //	         deepen-not x2 / since+not, x shallow absent/present x filter absent/present
+//	focus 3: 1..2 wants and 1..2 shallows drawn from the same family of ids (symbolic last
+//	         byte / 0x80), so that a shallow may equal a want (deepening a shallow clone:
+//	         "want X, shallow X"); sha1/sha256. Added after seed C35-2.
 func VerifHarness_C35_ulreq() {
-	focus := verifrt.Range(0, 2)
+	focus := verifrt.Range(0, 3)
 	sha256 := false
 	in := &UploadRequest{}
 	var canonWants []plumbing.Hash
-	if focus == 0 {
+	var canonShallows []plumbing.Hash
+	if focus == 0 || focus == 3 {
 		sha256 = verifrt.Range(0, 1) == 1
 		nw := verifrt.Range(1, verifrt.Param("WANTS"))
 		var wants []plumbing.Hash
 		wants, canonWants = verifC35SortedPair(nw, 0x77, sha256)
 		in.Wants = append(in.Wants, wants...)
+		if focus == 3 {
+			var sh []plumbing.Hash
+			sh, canonShallows = verifC35SortedPair(verifrt.Range(1, 2), 0x77, sha256)
+			in.Shallows = append(in.Shallows, sh...)
+		}
 	} else {
 		// given in descending order: Encode sorts
 		in.Wants = []plumbing.Hash{verifC35HashC(0x78, sha256), verifC35HashC(0x77, sha256)}
@@ -325,10 +334,13 @@ func VerifHarness_C35_ulreq() {
 		}
 		depthKind = verifrt.Range(0, 4)
 		withFilter = verifrt.Range(0, 1) == 1
-	} else {
+	} else if focus != 3 {
 		in.Shallows = append(in.Shallows, verifC35HashC(0x50, sha256))
 	}
 	shallows := append([]plumbing.Hash(nil), in.Shallows...)
+	if focus == 3 {
+		shallows = canonShallows // Encode sorts and de-duplicates, as for wants
+	}
 	var since int64
 	switch depthKind {
 	case 1:
